@@ -513,3 +513,27 @@ End Decode.
 Definition decode_bytes (orc : oracles) (e : env) (root : bytes) (bs : bytes) : outcome msg :=
   let '(ts, more_at_end) := lex bs in
   decode_tokens orc e more_at_end (S (length ts)) root ts.
+
+(* ------------------------------------------------------------ code facts the model relies on
+   (compared with gen/SwitchGen.v, which is read from the Go AST on every run) *)
+Local Open Scope string_scope.
+(* decodeValue's dispatch: the seven property types of [decode_present] *)
+Definition model_decode_value_arms : list string :=
+  ["MapProperty->decodeMapProperty"; "ArrayProperty->decodeArrayProperty"; "ObjectProperty->decodeObjectProperty";
+   "OneofProperty->decodeOneofProperty"; "EnumProperty->decodeEnum"; "ScalarProperty->decodeScalar";
+   "AnyProperty->decodeAny"; "default"].
+(* null: containers use expectDelimOrNull, scalar/enum compare the token with nil ([member_with] skips a
+   null for all seven), array elements / map values / roots use expectDelim ([expect]: null is an error) *)
+Definition model_null_handling : list (string * string) :=
+  [("decodeAny", "delim-or-null"); ("decodeArrayProperty", "delim-or-null"); ("decodeEnum", "nil-check");
+   ("decodeMapProperty", "delim-or-null"); ("decodeObject", "delim"); ("decodeObjectProperty", "delim-or-null");
+   ("decodeOneof", "delim"); ("decodeOneofProperty", "delim-or-null"); ("decodeScalar", "nil-check")].
+(* [oneof_post] returns from the type-only branch; [append_go_value] / [map_set_go_value] refuse an
+   invalid value before List.Append / Map.Set; integer string arms return the strconv error;
+   protoPair.setValue clears the field on an invalid value *)
+Definition model_oneof_type_only_returns : bool := true.
+Definition model_append_go_value_guarded : bool := true.
+Definition model_map_set_go_value_guarded : bool := true.
+Definition model_int_string_err_returned : list (string * bool) :=
+  [("Integer/FORMAT_INT32", true); ("Integer/FORMAT_INT64", true); ("Integer/FORMAT_UINT32", true); ("Integer/FORMAT_UINT64", true)].
+Definition model_set_value_clears_invalid : bool := true.
